@@ -112,13 +112,14 @@ class Ctx:
     # ---------------------------------------------------------------- IR
     def ir(s, tu, extra_src=None):
         """compile one translation unit of /repo/engine (or an auxiliary .cpp given by path) to textual IR"""
-        key = extra_src or tu
+        nopic = bool(getattr(s, 'nopic', False))     # -fno-pic keeps constant string tables as plain pointer arrays (PIC code turns them into relative-offset tables read through llvm.load.relative)
+        key = (extra_src or tu) + (':nopic' if nopic else '')
         with s._lock:
             if key in s._ir: return s._ir[key]
         src = extra_src or os.path.join(ENGINE, tu + '.cpp')
         if not os.path.exists(src): raise Broken('source file missing: ' + src)
-        out = s.path(os.path.basename(src).replace('.cpp', '') + '.ll')
-        s.sh(['clang++-14'] + CLANG_FLAGS + ['-I', ENGINE, '-I', s.cfg, '-I', os.path.join(VERIF, 'native'), src, '-o', out])
+        out = s.path(os.path.basename(src).replace('.cpp', '') + ('_nopic' if nopic else '') + '.ll')
+        s.sh(['clang++-14'] + CLANG_FLAGS + (['-fno-pic'] if nopic else []) + ['-I', ENGINE, '-I', s.cfg, '-I', os.path.join(VERIF, 'native'), src, '-o', out])
         with s._lock: s._ir[key] = out
         return out
 
